@@ -448,8 +448,8 @@ fn format_directive<'entry>(
         #[cfg(unix)]
         FormatDirective::Filesystem => {
             let dev_id = meta()?.dev().to_string();
-            let fs_list =
-                uucore::fsext::read_fs_list().expect("Could not find the filesystem info");
+            let fs_list = uucore::fsext::read_fs_list()
+                .map_err(|e| format!("Could not find the filesystem info: {e}"))?;
             fs_list
                 .into_iter()
                 .find(|fs| fs.dev_id == dev_id)
